@@ -7,23 +7,31 @@ MANIFEST = {
             "when nothing was reported before `err = ctx.complete()` and no panic reached its deferred recover. The full kernel statement "
             "(no error returned => nothing was ever reported) is false for the code as written - reports made after complete() are lost - "
             "and that is proved too (C06_late_report_lost, model witness). NO theorem says that the written Go is valid or well-typed: gogen "
-            "(outside /repo) decides that. That part - the actual property - is covered only by search: generated valid XGo programs using "
-            "every sugar, near-miss mutants, /repo's corpus and its mutants are compiled by the real cl.NewPackage; whenever it reports success "
-            "the written Go must parse (go/parser), type-check (go/types, export data, offline) and compile with the Go toolchain (sample in "
-            "quick, all in thorough). The unchanged tree violates the property in several recorded classes (known_findings.txt): XGo does not "
-            "report unused variables, missing returns, unused expression values, excess conversion arguments, etc.",
-    "note": "trusted: Lean kernel; translator extract/errsinks.go (that the extracted shapes mean what the Go code means; unknown shapes "
-            "break the tie); go/parser, go/types and gc as the judges of validity; generators/mutators of harness/compa. Linking is not "
-            "required (compile-only `go list -export`), so llgo/C demo programs are judged by compilation. Violations are keyed by Go's error "
-            "class; a new class is reported as a VIOLATION, another instance of a recorded class as KNOWN-FINDING.",
+            "(outside /repo) decides that. That part - the actual property - is covered only by search, on two streams. Stream V: "
+            "valid-by-construction XGo programs using every sugar (random, seeded): whenever the real cl.NewPackage reports success the written "
+            "Go must parse (go/parser), type-check (go/types, export data, offline) and compile with gc (sample in quick, all in thorough); any "
+            "rejection is a violation keyed by judge and Go error class. Stream M: a FIXED, seed-independent regression list of 7 000 near-miss "
+            "mutants and corpus packages (quick: its first 1 500) with a committed baseline of the inputs the unchanged compiler accepts although "
+            "Go rejects the output (723 inputs, 20 Go error classes: XGo leaves many static checks to the Go compiler); a stream-M input is a "
+            "violation iff it is accepted, its output is rejected, and (input id, class) is not in the baseline.",
+    "note": "trusted: Lean kernel; translator extract/errsinks.go (unknown shapes break the tie); go/parser, go/types and gc as the judges of "
+            "validity; generators/mutators of harness/compa. Stream M is a fixed regression list (corpus/C06/stream_m.jsonl.gz) with a per-input "
+            "baseline (corpus/C06/known_bad_accepts.txt), both produced once by the maintenance command `c06 -mkstream`, never at check time: "
+            "the set of Go checks gogen lacks is long-tailed, so random near-miss inputs cannot be judged by error class without alarming on "
+            "the unchanged tree for some seed; with the fixed list the unchanged tree cannot alarm on stream M, while a change to /repo that "
+            "makes the compiler accept further bad programs of the list, or write differently-bad Go for them, is reported with that input. "
+            "The cost: near-miss inputs outside the list are not explored by new seeds (only stream V is random). Linking is not required "
+            "(compile-only `go list -export`). known_findings.txt has one line per class (key gogen-lacks-check:<class>) plus two "
+            "valid-program findings of stream V (found first by builder compC).",
     "technique": "Lean 4 proof over translator-extracted error-sink facts (kernel-decided obligations) + search: real cl.NewPackage on "
-                 "generated/mutated/corpus packages, output judged by go/parser + go/types + gc",
+                 "valid-by-construction programs (random) and on a fixed near-miss regression list with per-input baseline, output judged by "
+                 "go/parser + go/types + gc",
 }
 
-RULE = ("packages = every sugar piece alone (31), generated combinations of 1-4 pieces, near-miss mutants (16 mutation kinds: identifier/type/"
-        "literal swaps, arity, dropped/duplicated lines, := vs =, assignment counts, unused vars/imports, duplicate decls, duplicated case clauses), a rotating quarter "
-        "(quick) or all (thorough) of /repo's XGo corpus incl. the cl test snippets, and mutated corpus; non-trivial = parsed and handed to "
-        "cl.NewPackage (success or error); distinct = distinct file set")
+RULE = ("stream V: every sugar piece alone (31) + N random combinations of 1-4 pieces (quick 600, thorough 3000), all valid by construction; "
+        "stream M: fixed list of 7000 packages (every 4th a corpus package of /repo as is, the others near-miss mutants by 16 mutation kinds "
+        "of generated programs and corpus), quick = first 1500, thorough = all; non-trivial = parsed and handed to cl.NewPackage; distinct = "
+        "distinct file set")
 
 
 def run(ctx):
@@ -31,4 +39,4 @@ def run(ctx):
         "type-correctness of gogen's output is NOT proved by any theorem; it is searched",
         "go/types + gc (Go 1.23) define 'valid Go'",
     ]
-    compa_flow.run_search(ctx, "GopModel.Props.C06", "c06", 1500, 6000, RULE)
+    compa_flow.run_search(ctx, "GopModel.Props.C06", "c06", 600, 3000, RULE)
